@@ -76,7 +76,7 @@ def change_origin_somewhere(rng, t):
 
 def gen_cases(rng, tier):
     cases = []
-    n_uni = 8 if tier == "quick" else 200
+    n_uni = 14 if tier == "quick" else 200
     per = 25 if tier == "quick" else 100
     for _ in range(n_uni):
         u = gen_universe(rng, force_falsy=rng.random() < 0.3)
